@@ -47,6 +47,8 @@ INFO = {
 }
 
 TOL = F(1, 10**12)
+UNDERFLOW = F(1, 2**990)        # a common mass below this is not a positive float: `&` may raise there
+RUN = "p%d_" % os.getpid()      # file-name prefix of this run inside work/C11 (runs may overlap)
 
 # ---------------------------------------------------------------------------
 # events: a universe of hashable Python values with collisions
@@ -525,7 +527,8 @@ def oracle(case, res):
     chk("mix", want)
     chk("rmul", {x: a * p for x, p in m1.items()})
     N = sum(p * m2[x] for x, p in m1.items() if x in m2)
-    chk("and", {x: p * m2[x] / N for x, p in m1.items() if x in m2} if N > 0 else {}, defined=N > 0)
+    and_defined = N > 0 and (isinstance(res["and"], list) or N >= UNDERFLOW)
+    chk("and", {x: p * m2[x] / N for x, p in m1.items() if x in m2} if N > 0 else {}, defined=and_defined)
     if N > 0 and isinstance(res["and"], list) and "and" not in bad:
         try:
             if sorted(eid(e) for e, _ in res["and"]) != sorted(x for x in m1 if x in m2):
@@ -629,12 +632,12 @@ def run_softmax(ctx, jobs):
     def one(args):
         k, sh = args
         text = SM_PRE + "".join("".join(g) for _, g in sh)
-        ok, out, err = ctx.coq_script(text, name="softmax_%d" % k, timeout=600)
+        ok, out, err = ctx.coq_script(text, name="%ssoftmax_%d" % (RUN, k), timeout=600)
         if ok:
             return set()
         failed = set()
         for j, (label, goals) in enumerate(sh):       # locate the failing case(s)
-            ok2, _, _ = ctx.coq_script(SM_PRE + "".join(goals), name="softmax_%d_%d" % (k, j), timeout=120)
+            ok2, _, _ = ctx.coq_script(SM_PRE + "".join(goals), name="%ssoftmax_%d_%d" % (RUN, k, j), timeout=120)
             if not ok2:
                 failed.add(label)
         return failed
@@ -718,7 +721,8 @@ def run(ctx):
            "int_scalars": 0, "seed_zero": 0, "and_with_zero_probability_entry": 0, "condition_all_rejected": 0,
            "uniform_str_support_nonmember_probes": 0, "uniform_str_support_nonmember_anomalies": 0,
            "model_skipped_subnormal_floats": 0, "softmax_exact_typed_scores": 0,
-           "softmax_exact_scores_beyond_float_integer_range": 0}
+           "softmax_exact_scores_beyond_float_integer_range": 0, "model_evaluations_retried": 0,
+           "model_evaluation_failed_judged_by_oracle": 0, "and_normaliser_underflows_in_floats": 0}
     reps = {}
     FALSY = {ID[v] for v in UNIVERSE if not v}
 
@@ -848,7 +852,21 @@ def run(ctx):
     # model evaluation and the softmax interval proofs run concurrently
     with ThreadPoolExecutor(max_workers=2) as ex:
         fut_sm = ex.submit(run_softmax, ctx, sm_jobs)
-        vals = ctx.coq(PRE, terms, shard=max(10, len(terms) // max(1, ctx.jobs) + 1) if tier == "quick" else 120)
+        vals = ctx.coq(PRE, terms, shard=max(10, len(terms) // max(1, ctx.jobs) + 1) if tier == "quick" else 120,
+                       tag=RUN + "cases")
+        # a failed evaluation is retried once on its own (a transient failure of one shard — e.g. two checks
+        # of C11 running at the same time, a timeout under load — must not take 100 cases with it)
+        redo = [k for k, v in enumerate(vals) if isinstance(v, vlib.CoqError)]
+        if redo and len(redo) <= max(40, len(vals) // 2):
+            again = ctx.coq(PRE, [terms[k] for k in redo], shard=10, tag=RUN + "retry")
+            for k, v in zip(redo, again):
+                vals[k] = v
+            cnt["model_evaluations_retried"] = len(redo)
+            redo = [k for k in redo if isinstance(vals[k], vlib.CoqError)]
+            if redo and len(redo) <= 40:        # one term per file: an error in one term hides the others of its file
+                again = ctx.coq(PRE, [terms[k] for k in redo], shard=1, tag=RUN + "retry1")
+                for k, v in zip(redo, again):
+                    vals[k] = v
         timing["model_s"] = round(time.time() - t0 - timing["impl_s"], 1)
         sm_failed, ngoals = fut_sm.result()
         timing["model_and_interval_s"] = round(time.time() - t0 - timing["impl_s"], 1)
@@ -874,10 +892,11 @@ def run(ctx):
 
     distinct = set()
     nops = 0
+    coq_failed = []
     for i, v in zip(meta, vals):
         case, res = cases[i], impl[i]
         if isinstance(v, vlib.CoqError):
-            viol("C11:coq-evaluation-failed", i, {"error": str(v)[:800]}, False)
+            coq_failed.append((i, str(v)[:800]))
             continue
         try:
             (_, v1, v2, m_marg, m_chain, (m_cond, (m_kept, m_norm)), m_joint, m_mix, m_rmul,
@@ -952,7 +971,9 @@ def run(ctx):
             cnt["condition_all_rejected"] += 1
         if m_N > 0 and any(p == 0 for _, p in m_and):
             cnt["and_with_zero_probability_entry"] += 1
-        if m_N > 0:
+        if 0 < m_N < UNDERFLOW and not isinstance(res["and"], list):
+            cnt["and_normaliser_underflows_in_floats"] += 1
+        elif m_N > 0:
             c = cmp_items(res["and"], m_and, stats)
             if c:
                 problems["and"] = c
@@ -1116,6 +1137,25 @@ def run(ctx):
                 op = sorted(problems)[0]
                 detail["correspondence"] = "model/Dist.v (theorems props/C11.v) and msdm differ on %s" % ", ".join(sorted(problems))
                 viol("C11:mirror-differs:%s" % op, i, detail, False)
+
+    # cases whose model term could not be evaluated even on retry: the exact oracle of the calculus judges
+    # msdm's answers; only a systemic failure (the model no longer evaluates) is a broken correspondence
+    systemic = len(coq_failed) > max(3, len(meta) // 20)
+    for i, err in coq_failed:
+        why = oracle(cases[i], impl[i])
+        if why:
+            op = sorted(why)[0]
+            viol("C11:%s:%s" % (op, why[op][:80]), i, {"failing_clause": why, "impl": impl[i], "model_error": err}, True)
+        elif systemic:
+            viol("C11:coq-evaluation-failed", i, {"error": err, "failed_cases": len(coq_failed), "of": len(meta)}, False)
+        else:
+            cnt["model_evaluation_failed_judged_by_oracle"] += 1
+    for fn in os.listdir(ctx.workdir):          # this run's generated files
+        if fn.startswith("C11_" + RUN) or fn.startswith(".C11_" + RUN):
+            try:
+                os.remove(os.path.join(ctx.workdir, fn))
+            except OSError:
+                pass
 
     ctx.coverage.update({
         "evaluations": nops,
